@@ -30,7 +30,7 @@ def call(c):
 def fault(e):
     if e["mode"] == "before":
         return "FBefore"
-    if e["mode"] == "after":
+    if e["mode"] in ("after", "late"):
         return "(FAfter %d)" % e["j"]
     return "FWrite"
 
@@ -146,7 +146,7 @@ def slim(r):
 def run(ctx):
     ctx.add_obligations(vcheck.coq_props("Exec", "C20"))
     ctx.cov["checker_cmd"] = "coqc -Q coq/Exec BWExec coq/Exec/Props/C20.v; work/bin/h_fault -seed S -n N | model evaluated by vm_compute (coq/Exec/Corr.v fault_agrees)"
-    n = 600 if ctx.tier == "thorough" else 36
+    n = 600 if ctx.tier == "thorough" else 34
     runs = hfault(["-seed", str(ctx.seed), "-n", str(n)] + (["-deep"] if ctx.tier == "thorough" else []))
     if ctx.replay:
         rp = json.load(open(ctx.replay))
@@ -186,7 +186,8 @@ def run(ctx):
         else:
             ctx.notes.append("finding %s no longer reproduces in this run" % f.get("id"))
     # while the early-return finding is open the store after such a run is racy (the abandoned writer is still writing)
-    cmp_runs = [r for r in runs if not ("construct_writer_left_on_template_error" in open_findings and is_template_error(r))]
+    # runs through the memoizer are judged by the property only (the model has no cache)
+    cmp_runs = [r for r in runs if not r.get("memo") and not ("construct_writer_left_on_template_error" in open_findings and is_template_error(r))]
     bad = model_mismatches(ctx, "cases_c20", cmp_runs)
     for i in bad[:5]:
         ctx.violation({"kind": "fault-model-vs-real-engine", "case": slim(cmp_runs[i]),
@@ -208,6 +209,10 @@ def run(ctx):
                        "non-trivial = a failure entry was consumed; distinct by (store prefix, statement, schedule, bulk)")
     ctx.cov["samples"] = [slim(r) for r in runs if consumed(r)][:3]
     ctx.cov["statements"] = len({r["case"] for r in runs})
+    ctx.cov["runs_through_memoizer"] = sum(1 for r in runs if r.get("memo"))
+    ctx.cov["runs_with_lingering_driver"] = sum(1 for r in runs if any(e["mode"] == "late" for e in (r.get("sched") or [])))
+    ctx.cov["write_calls_in_multi_triple_statements"] = sum(1 for r in runs if not r.get("sched") and r["stmt"]["kind"] in ("insert", "delete")
+                                                          and len(r["stmt"].get("ts") or []) >= 5)
     ctx.cov["by_kind_failure_outcome"] = dict(sorted(stats.items()))
     ctx.cov["driver_calls_per_statement"] = dict(sorted(collections.Counter(
         min(len(r["calls"]), 20) for r in runs if not r.get("sched")).items()))
